@@ -128,11 +128,32 @@ let wf (toks : string list) : string =
     in go 0 fns
   | _ -> "?"
 
+(* pd: <id> <kind> <n>  ->  ok <frames> | err <frames> : the parser skeleton on a nesting template *)
+let pd (toks : string list) : string =
+  match toks with
+  | [kind; n] ->
+    let n = int_of_string n in
+    let rep t = List.init n (fun _ -> t) in
+    let ts = match kind with
+      | "paren" -> [TReturn] @ rep TLPar @ [TAtom] @ rep TRPar
+      | "neg" -> [TReturn] @ rep TUn @ [TAtom]
+      | "pow" -> [TReturn] @ List.concat (List.init n (fun _ -> [TAtom; TPow])) @ [TAtom]
+      | "tbl" -> [TReturn] @ rep TLBrace @ rep TRBrace
+      | "fn" -> [TReturn] @ List.concat (List.init n (fun _ -> [TFunction; TReturn])) @ [TAtom] @ rep TEnd
+      | "do" -> rep TDo @ rep TEnd
+      | "binop" -> [TReturn] @ List.concat (List.init n (fun _ -> [TAtom; TBin])) @ [TAtom]
+      | _ -> [] in
+    (match parseChunk (nat_of_int (4 * n + 20)) ts with
+     | Ok (_, m) -> "ok " ^ string_of_int (int_of_nat m)
+     | Err m -> "err " ^ string_of_int (int_of_nat m)
+     | OutOfFuel -> "fuel")
+  | _ -> "?"
+
 let () =
   let engine = if Array.length Sys.argv > 1 then Sys.argv.(1) else "enc" in
   iter_lines (fun line ->
     match split_on ' ' line with
     | id :: rest ->
       print_string id; print_char ' ';
-      print_endline (if engine = "lim" then lim rest else if engine = "wf" then wf rest else enc rest)
+      print_endline (if engine = "lim" then lim rest else if engine = "wf" then wf rest else if engine = "pd" then pd rest else enc rest)
     | [] -> ())
